@@ -73,7 +73,9 @@ PROPS = {
                  "has its data inside [buf, buf+cap); the observed result is identical before and after the whole buffer is overwritten and "
                  "re-used for another Marshal; every earlier result is re-checked after later decodes. Marshal: value unchanged, destination "
                  "bytes below len unchanged, output shares no address range with any string/slice of the value and does not change when the "
-                 "value's byte slices are overwritten. Non-trivial = result holds >=1 non-empty string or slice; distinct by case hash."),
+                 "value's byte slices are overwritten. The same oracles run on the JSON-any codecs (map[string]any / []any trees at top level and as a "
+                 "struct field; fresh target, the same target decoded into again so that every key is already present, and a target populated "
+                 "with other data sharing some keys). Non-trivial = result holds >=1 non-empty string or slice; distinct by case hash."),
         "jobs": [{"run": "^TestC11", "shards": 48, "quick_shards": 4, "timeout_quick": 600, "timeout_thorough": 3000}],
     },
     "C03": {
